@@ -37,10 +37,9 @@ theorem live_conn {s : State ρ} {i : ConnId} (hl : Live s i) : ∃ c, s.conns[i
 
 theorem unicast_exact_from {cfg : Cfg ρ} (hr : cfg.Repaired) {s : State ρ} (inv : Inv s) (i : ConnId) (m : Msg)
     (op : BusOp ρ) (d : Name) (ha : Addressed m d) (hl : Live s i) :
-    (∃ n, nameOf (step cfg s (.msg i m op)).1 i = some n) ∧
+    ∃ n, nameOf (step cfg s (.msg i m op)).1 i = some n ∧
     (∀ j, Owns (step cfg s (.msg i m op)).1 j d →
-      (step cfg s (.msg i m op)).2.deliveries =
-        [⟨j, .fwd i (withSender m (nameOf (step cfg s (.msg i m op)).1 i))⟩]) ∧
+      (step cfg s (.msg i m op)).2.deliveries = [⟨j, .fwd i (remarshal m n)⟩]) ∧
     ((∀ j, ¬ Owns (step cfg s (.msg i m op)).1 j d) → (step cfg s (.msg i m op)).2.deliveries = []) := by
   obtain ⟨c, hc, hconn⟩ := live_conn hl
   have ns := ensureNamed_spec inv i c hc hconn
@@ -50,14 +49,14 @@ theorem unicast_exact_from {cfg : Cfg ρ} (hr : cfg.Repaired) {s : State ρ} (in
     (ensureNamed s i c).2.2 c.calledHello m op d ha
   have hn : nameOf (ensureNamed s i c).1 i = some (ensureNamed s i c).2.1 := by
     rw [nameOf_of_getElem _ i c1 h1]; exact h3
-  rw [a, b, hn]
-  exact ⟨⟨_, rfl⟩, fun j ho => busSend_owner ns.inv d _ j ho, fun hno => busSend_no_owner ns.inv d _ hno⟩
+  rw [a, b]
+  exact ⟨_, hn, fun j ho => busSend_owner ns.inv d _ j ho, fun hno => busSend_no_owner ns.inv d _ hno⟩
 
 /-! ### T3 -/
 
 theorem sender_is_true_from {cfg : Cfg ρ} (hr : cfg.Repaired) {s : State ρ} (inv : Inv s) (e : Event ρ)
     (dl : Delivery) (hdl : dl ∈ (step cfg s e).2.deliveries) (o : ConnId) (m' : Msg) (hw : dl.what = .fwd o m') :
-    ∃ m op n, e = .msg o m op ∧ nameOf (step cfg s e).1 o = some n ∧ m' = withSender m (some n) := by
+    ∃ m op n, e = .msg o m op ∧ nameOf (step cfg s e).1 o = some n ∧ m' = remarshal m n := by
   cases e with
   | connect => simp [step] at hdl
   | disconnect i effs =>
@@ -68,6 +67,7 @@ theorem sender_is_true_from {cfg : Cfg ρ} (hr : cfg.Repaired) {s : State ρ} (i
       · simp [step, stepDisconnect, hc, hconn] at hdl
       · have hconn' : c.isConnected = true := by simpa using hconn
         obtain ⟨_, _, _, _, _, h6, _⟩ := stepDisconnect_fields cfg s i effs c hc hconn'
+          (disconnectOk_of_inv inv i c hc hconn')
         obtain ⟨x, hx⟩ := h6 dl hdl
         rw [hx] at hw; cases hw
   | msg i m op =>
@@ -125,20 +125,24 @@ theorem bus_calls_from {cfg : Cfg ρ} (hr : cfg.Repaired) {s : State ρ} (inv : 
     (op : BusOp ρ) (hd : m.dest = some busName) (hl : Live s i) :
     (∀ dl ∈ (step cfg s (.msg i m op)).2.deliveries, dl.what.isFwd = false) ∧
     (step cfg s (.msg i m op)).2.deliveries.filterMap replyOf =
-      (if answered (helloCalled s i) m op then [(i, m.serial)] else []) := by
+      (if answered (helloCalled s i) m op then [(i, m.serial)] else []) ∧
+    (∀ dl ∈ (step cfg s (.msg i m op)).2.deliveries, ∀ j nm, helloNameOf dl = some (j, nm) →
+      j = i ∧ nameOf (step cfg s (.msg i m op)).1 i = some nm) := by
   obtain ⟨c, hc, hconn⟩ := live_conn hl
   have ns := ensureNamed_spec inv i c hc hconn
   obtain ⟨c1, h1, h2, h3, _⟩ := ns.conn
   rw [step_msg_live cfg s i m op c hc hconn, helloCalled_of_getElem s i c hc]
-  obtain ⟨_, _, _, sigs, hs, hdeliv⟩ := stepNamed_bus hr ns.inv i c1 (ensureNamed s i c).2.1
+  obtain ⟨_, keeps, _, sigs, hs, hdeliv⟩ := stepNamed_bus hr ns.inv i c1 (ensureNamed s i c).2.1
     (ensureNamed s i c).2.2 c.calledHello m op h1 h2 h3 hd
+  have hn : nameOf (ensureNamed s i c).1 i = some (ensureNamed s i c).2.1 := by
+    rw [nameOf_of_getElem _ i c1 h1]; exact h3
   rw [hdeliv]
   have hsig : sigs.filterMap replyOf = [] := by
     rw [List.filterMap_eq_nil_iff]
     intro dl hdl
     obtain ⟨x, hx⟩ := hs dl hdl
     simp [replyOf, hx]
-  refine ⟨?_, ?_⟩
+  refine ⟨?_, ?_, ?_⟩
   · intro dl hdl
     rw [List.mem_append] at hdl
     rcases hdl with h | h
@@ -159,6 +163,20 @@ theorem bus_calls_from {cfg : Cfg ρ} (hr : cfg.Repaired) {s : State ρ} (inv : 
     split
     · simp [List.filterMap_cons, hrep]
     · simp
+  · intro dl hdl j nm hh
+    rw [List.mem_append] at hdl
+    rcases hdl with h | h
+    · obtain ⟨x, hx⟩ := hs dl h
+      simp [helloNameOf, hx] at hh
+    · split at h
+      · simp only [List.mem_singleton] at h
+        subst h
+        by_cases hp : c.calledHello = false ∧ m.member = some helloMember
+        · simp only [helloNameOf, if_pos hp, Option.some.injEq, Prod.mk.injEq] at hh
+          obtain ⟨rfl, rfl⟩ := hh
+          exact ⟨rfl, by rw [keeps.2.2.1]; exact hn⟩
+        · simp [helloNameOf, if_neg hp] at hh
+      · simp at h
 
 /-! ### T6 -/
 
@@ -170,10 +188,10 @@ theorem route_eq_held (cfg : Cfg ρ) (s : State ρ) (m : Msg) (p : Payload) :
 
 theorem broadcast_exact_from {cfg : Cfg ρ} (hr : cfg.Repaired) {s : State ρ} (inv : Inv s) (i : ConnId) (m : Msg)
     (op : BusOp ρ) (hd : truthy m.dest = false) (hl : Live s i) :
-    (∃ n, nameOf (step cfg s (.msg i m op)).1 i = some n) ∧
+    ∃ n, nameOf (step cfg s (.msg i m op)).1 i = some n ∧
     (step cfg s (.msg i m op)).2.deliveries =
-      ((heldBy s).filter (fun e => cfg.holds e.2 (withSender m (nameOf (step cfg s (.msg i m op)).1 i)))).map
-        (fun e => ⟨e.1, .fwd i (withSender m (nameOf (step cfg s (.msg i m op)).1 i))⟩) ∧
+      ((heldBy s).filter (fun e => cfg.holds e.2 (withSender m (some n)))).map
+        (fun e => ⟨e.1, .fwd i (remarshal m n)⟩) ∧
     (∀ j, connected (step cfg s (.msg i m op)).1 j = connected s j) := by
   obtain ⟨c, hc, hconn⟩ := live_conn hl
   have ns := ensureNamed_spec inv i c hc hconn
@@ -183,8 +201,8 @@ theorem broadcast_exact_from {cfg : Cfg ρ} (hr : cfg.Repaired) {s : State ρ} (
     (ensureNamed s i c).2.2 c.calledHello m op hd
   have hn : nameOf (ensureNamed s i c).1 i = some (ensureNamed s i c).2.1 := by
     rw [nameOf_of_getElem _ i c1 h1]; exact h3
-  rw [a, b, hn]
-  refine ⟨⟨_, rfl⟩, ?_, ns.connected⟩
+  rw [a, b]
+  refine ⟨_, hn, ?_, ns.connected⟩
   rw [route_eq_held]
   have : heldBy (ensureNamed s i c).1 = heldBy s := by unfold heldBy; rw [ns.rules]
   rw [this]
